@@ -34,6 +34,15 @@ ALLOWED_SET_ITERATION = {
 }
 
 
+# contract: in-place updates of objects received from the caller that are part of the function's specification (or rebinding of immutables)
+ALLOWED_WRITES = {
+    ("core/phonon_contribution/nonshear.py", "clear_gamma_point"): "contract: zeroes the Gamma-acoustic slots of ITS ARGUMENT in place (callers pass a private copy, C01)",
+    ("core/mode_gamma.py", "lstsq_polyfit"): "`order += 1` rebinds an integer parameter (immutable): no object is written",
+    ("util/fill.py", "fill_cij"): "writes the solved columns into the table it was given (the returned frame may be the input object); values of non-modulus columns are untouched (C08/C09)",
+    ("misc/evec_disp2eig.py", "evec_disp2eig"): "works on numpy.copy(a)",
+}
+
+
 def run(s):
     tier = s.tier
     s.trust("vf/frames.py (conservative AST analysis; unsound for setattr/exec/C extensions/aliasing through locals)", "python import system (modules executed once)")
@@ -56,6 +65,8 @@ def run(s):
                     if kind == "ambient" and (rel, q) in ALLOWED_AMBIENT:
                         continue
                     if kind == "set-iteration" and (rel, q) in ALLOWED_SET_ITERATION:
+                        continue
+                    if kind == "write" and (rel, q) in ALLOWED_WRITES and ("parameter" in what or "in-place" in what or "item assignment" in what):
                         continue
                     bad.append("%s: %s: %s" % (q, kind, what))
             if bad:
